@@ -32,11 +32,11 @@ var profiles = map[string][]weighted{
 		{"heal", 6}, {"snapshot", 5}, {"addvoter", 3}, {"restartall", 2}, {"lossy", 4}, {"crashop", 4}, {"join", 4}, {"flakyreads", 5}},
 	"futures": {{"apply", 14}, {"barrier", 7}, {"verify", 7}, {"addvoter", 3}, {"addnonvoter", 2}, {"demote", 2}, {"remove", 3}, {"snapshot", 5},
 		{"restore", 3}, {"transfer", 6}, {"getconfig", 3}, {"shutdown", 8}, {"aftershutdown", 4}, {"isolate", 5}, {"cutleader", 5}, {"heal", 6},
-		{"crash", 2}, {"restart", 5}, {"tick", 8}, {"crashop", 4}, {"inflightfault", 5}, {"slowtransfer", 4}},
+		{"crash", 2}, {"restart", 5}, {"tick", 8}, {"crashop", 4}, {"inflightfault", 5}, {"slowtransfer", 4}, {"restoreinflight", 5}},
 	"notify": {{"transfer", 12}, {"cutleader", 8}, {"isolate", 8}, {"heal", 12}, {"remove", 2}, {"demote", 2}, {"apply", 15}, {"slowconsumer", 6},
 		{"tick", 10}, {"crash", 3}, {"restart", 5}, {"reload", 3}, {"staleis", 6}, {"lagcompact", 3}},
 	"restore": {{"restore", 12}, {"apply", 35}, {"tick", 6}, {"addvoter", 2}, {"demote", 2}, {"remove", 2}, {"isolate", 5}, {"lagcompact", 4}, {"heal", 8},
-		{"crash", 3}, {"restart", 4}, {"transfer", 4}, {"snapshot", 3}, {"barrier", 2}, {"stalesuffix", 6}, {"slowtransfer", 6}},
+		{"crash", 3}, {"restart", 4}, {"transfer", 4}, {"snapshot", 3}, {"barrier", 2}, {"stalesuffix", 6}, {"slowtransfer", 6}, {"restoreinflight", 5}},
 }
 
 func pick(t *rapid.T, ws []weighted, label string) string {
@@ -220,6 +220,9 @@ func genAction(t *rapid.T, p *Program, ws []weighted) Action {
 	case "inheritedtail":
 		a.N = oneOf(t, "tail", 1, 2, 3, 5)
 		a.Arg = oneOf(t, "fresh", 1, 2, 3)
+	case "restoreinflight":
+		a.N = rapid.IntRange(0, 4).Draw(t, "extraInFlight")
+		a.Arg = rapid.IntRange(0, 2).Draw(t, "where")
 	case "slowtransfer":
 		a.N = oneOf(t, "afterMs", 0, 1, 5, 20)
 		a.Arg = rapid.IntRange(0, 3).Draw(t, "call")
